@@ -245,8 +245,9 @@ namespace cds { namespace intrusive {
                             nodeSize = arrayNodeSize;
                         }
                         else if ( slot.bits() == base_class::flag_array_converting ) {
-                            // the slot is converting to array node right now - skip the node
-                            ++idx;
+                            // the slot is converting to array node right now: wait until the conversion is done,
+                            // then go down to the new array node (skipping the slot would miss the item it holds)
+                            back_off()();
                         }
                         else {
                             if ( slot.ptr()) {
@@ -256,6 +257,10 @@ namespace cds { namespace intrusive {
                                     m_idx = idx;
                                     return;
                                 }
+
+                                // The slot has been changed: the item has been removed or the slot
+                                // has been converted to array node - examine the slot once more
+                                continue;
                             }
                             ++idx;
                         }
@@ -303,8 +308,9 @@ namespace cds { namespace intrusive {
                             idx = nodeSize - 1;
                         }
                         else if ( slot.bits() == base_class::flag_array_converting ) {
-                            // the slot is converting to array node right now - skip the node
-                            --idx;
+                            // the slot is converting to array node right now: wait until the conversion is done,
+                            // then go down to the new array node (skipping the slot would miss the item it holds)
+                            back_off()();
                         }
                         else {
                             if ( slot.ptr()) {
@@ -314,6 +320,10 @@ namespace cds { namespace intrusive {
                                     m_idx = idx;
                                     return;
                                 }
+
+                                // The slot has been changed: the item has been removed or the slot
+                                // has been converted to array node - examine the slot once more
+                                continue;
                             }
                             --idx;
                         }
